@@ -35,7 +35,13 @@ Negotiated == <<[c |-> 1, nr |-> FALSE, h |-> "ok", v |-> {}, var |-> "valid"],
 Emit == \A c \in FeCodes \cup {0, 45, 46, 1000} : \A var \in Vars(c), pre \in {<<>>, Negotiated}, nr \in BOOLEAN, h \in {"ok", "fail"} :
           PrintT(<<"CASE", ToJson([dev |-> [vf |-> {VF_PROTOCOL_FEATURES}, pf |-> {}],
                                    steps |-> pre \o <<[c |-> c, nr |-> nr, h |-> h, v |-> {}, var |-> var]>>])>>)
-Init == done = FALSE /\ Emit
+\* descriptors attached to the body segment instead of the first byte (C09): the library must close them
+Bodied == {c \in FeServed : FeReqBodySize(c) > 0} \cup {SET_MEM_TABLE, GET_CONFIG, SET_CONFIG}
+EmitFdPos == \A c \in Bodied, k \in {1, 2, 32, 33}, pos \in {0, 1}, pre \in {<<>>, Negotiated} :
+          PrintT(<<"HCASE", ToJson([dev |-> [vf |-> {VF_PROTOCOL_FEATURES}, pf |-> {}],
+                                    steps |-> pre \o <<[c |-> c, nr |-> FALSE, h |-> "ok", v |-> {}, var |-> "nfds." \o ToString(k),
+                                                       seg |-> <<HDR_SIZE>>, fdseg |-> pos, cut |-> -1]>>])>>)
+Init == done = FALSE /\ Emit /\ EmitFdPos
 Next == ~done /\ done' = TRUE
 Spec == Init /\ [][Next]_done
 =============================================================================
